@@ -108,6 +108,15 @@ pub fn run_scenario(sc: &J, out: &mut Vec<J>) {
         card.borrow_mut().call_bytes = 0;
         let mut pays: Vec<i64> = Vec::new();
         let mut blocks: Vec<Block> = vec![Block::new(); n];
+        if name == "read" {
+            // what the caller's buffers held before must not reach the bus: fill them with stop-transmission
+            // frames (CMD12 with a valid CRC-7) - a driver that clocks the buffer out ends the transfer
+            for b in blocks.iter_mut() {
+                for (i, x) in b.contents.iter_mut().enumerate() {
+                    *x = [0x4C, 0x00, 0x00, 0x00, 0x00, 0x61, 0xFF, 0xFF][i % 8];
+                }
+            }
+        }
         if name == "write" {
             for b in blocks.iter_mut() {
                 wr_counter += 1;
